@@ -106,8 +106,30 @@ def build_fits_wcs(I, g):
             b[i, j] = v
         w.sip = I['Sip'](a, b, None, None, w.wcs.crpix)
         w.wcs.ctype = ['RA---TAN-SIP', 'DEC--TAN-SIP']
+    if g.get('lut'):
+        # look-up-table distortions (CPDIS / DET2IM), smooth ramps that do not vanish at CRPIX:
+        # g['lut'] = {'which': 'cpdis' | 'det2im' | 'both', 'a': offset, 'b': slope_i, 'c': slope_j}   (pixels)
+        from astropy.wcs import DistortionLookupTable
+        L = g['lut']
+        nx, ny = g['shape']
+        ii, jj = np.meshgrid(np.arange(5.0), np.arange(5.0), indexing='ij')
+        tab = (L['a'] + L['b'] * (ii - 2.0) + L['c'] * (jj - 2.0)).astype(np.float32)
+
+        def lt(tt):
+            return DistortionLookupTable(tt.copy(), (3.0, 3.0), (nx / 2.0, ny / 2.0), (nx / 3.0, ny / 3.0))
+        if L['which'] in ('cpdis', 'both'):
+            w.cpdis1 = lt(tab)
+            w.cpdis2 = lt(-0.5 * tab.T)
+        if L['which'] in ('det2im', 'both'):
+            w.det2im1 = lt(0.5 * tab)
+            w.det2im2 = lt(0.25 * tab.T)
     w.wcs.set()
     return w
+
+
+def gen_lut(rng):
+    return {'which': rng.choice(['cpdis', 'det2im', 'both']), 'a': dyr(rng, 0.1, 0.4, 6) * rng.choice([-1, 1]),
+            'b': dyr(rng, -0.05, 0.05, 8), 'c': dyr(rng, -0.05, 0.05, 8)}
 
 
 def fits_corrector(I, g):
